@@ -50,7 +50,7 @@ class Harness:
 
     def run_path(self, ctx):
         c, I = ctx, self.I
-        w = SyncWorld(I, ctx, 3, (1, 2), self.props)
+        w = SyncWorld(I, ctx, 4, (1, 2), self.props)
         I.env['json_decode'] = decode_strict_snapshot
         urg_log = []
 
@@ -60,6 +60,14 @@ class Harness:
             return u
         w.server.urgency = urgency
         avoid = bool(c.choose(2, 'avoid_snapshots'))
+        # optionally another replica's version is on the server first: the snapshotting sync then pulls before it pushes
+        if c.choose(2, 'foreign-version-first'):
+            w.server.urgency = None
+            w.do_commit(3, 1)
+            w.do_sync(3)
+            w.history[-1]['urgency'] = [0]
+            w.server.urgency = urgency
+            c.cover('snapshot sync pulls a foreign version first')
         # history before the snapshot point
         n = 1 + c.choose(self.nmax, 'n-before')
         w.do_commit(0, n)
@@ -126,10 +134,10 @@ class Harness:
         if not c.prove(tasks_eq(w.replica_tasks(2), ref), 'replica with local data diverged after syncing against a server with a snapshot',
                        w.witness, {'class': 'nonempty-replica'}):
             return None
-        for r in (0, 1):
+        for r in (0, 1, 3):
             w.do_sync(r)
         ref = w.chain_state()
-        for r in range(3):
+        for r in range(4):
             if not c.prove(tasks_eq(w.replica_tasks(r), ref), 'replicas differ', w.witness, {'class': 'diverged'}):
                 return None
         out = w.sample({'snapshots': len(w.server.snapshots_received), 'avoid': avoid})
@@ -190,13 +198,13 @@ def validate_samples(sample, out):
 
 
 def required_covers(tier):
-    return ['snapshot uploaded', 'fresh replica started from a snapshot', 'sync spanning several versions']
+    return ['snapshot uploaded', 'fresh replica started from a snapshot', 'sync spanning several versions', 'snapshot sync pulls a foreign version first']
 
 
 def configs(tier):
     if tier == 'quick':
         return [dict(name='snap', factory=lambda: Harness(('p',), 2, 1, 'q'),
-                     bounds='1-2 ops before the snapshot point (several versions possible), 0-1 ops after, 2 task ids, 1 property; urgency None/Low/High per accepted version x avoid_snapshots; then a fresh replica and a replica with local data')]
+                     bounds='1-2 ops before the snapshot point (several versions possible), 0-1 ops after, 2 task ids, 1 property; urgency None/Low/High per accepted version x avoid_snapshots; optionally a version of another replica is on the server first, so that the snapshotting sync pulls before it pushes; then a fresh replica and a replica with local data')]
     return [dict(name='snap-P2', factory=lambda: Harness(('p', 'q'), 3, 2, 't'),
                  bounds='1-3 ops before, 0-2 after, 2 task ids, 2 properties', time_limit_s=3300)]
 
